@@ -62,13 +62,13 @@ mutual
 end
 
 /-- the criteria written by the client, read by the top-level loop of handleSearch -/
-theorem pSearchTop_crit (c : Crit) (hok : CritOK c) (n : Nat) :
+theorem pSearchTop_crit (c : Crit) (hok : CritOK c) (hd : depth c < maxListDepth) (n : Nat) :
     pSearchTop (n + 1) Crit.empty none (critWire c ++ crlf) = .ok (canonCrit c, crlf) := by
   have hlen : 2 * depth c ≤ (critWire c ++ crlf).length + 2 := by
     have := two_depth_le c
     simp only [List.length_append]
     omega
-  have hr := readsAs_crit c _ hok (fun c' h' => composes c' h') hlen crlf
+  have hr := readsAs_crit c _ 0 0 hok (fun c' h' => composes c' h') hlen (by omega) (by unfold maxSearchKeyDepth; unfold maxListDepth at hd; omega) crlf
   simp only [pSearchTop, bind, Except.bind, hr, decSP_crlf]
   rfl
 
@@ -133,10 +133,10 @@ theorem notEol_afterOpts (cs : Bool) (c : Crit) (tail : Wire) : NotEol (afterOpt
   obtain ⟨r, hr⟩ := critWire_cons c
   cases cs <;> simp [afterOpts, hr, NotEol, kw, str, atom]
 
-theorem pSearchRest_w (uid : Bool) (opts : SearchOpts) (cs : Bool) (c : Crit) (hok : CritOK c) :
+theorem pSearchRest_w (uid : Bool) (opts : SearchOpts) (cs : Bool) (c : Crit) (hok : CritOK c) (hd : depth c < maxListDepth) :
     pSearchRest uid opts (afterOpts cs c ++ crlf) = .ok (.search uid (canonCrit c) (canonSearchOpts (some opts)), []) := by
   obtain ⟨r, hr⟩ := critWire_cons c
-  have htop := pSearchTop_crit c hok (critWire c ++ crlf).length
+  have htop := pSearchTop_crit c hok hd (critWire c ++ crlf).length
   cases cs with
   | false =>
     have hsp : span isSearchAtomChar (critWire c ++ crlf) = ([], critWire c ++ crlf) := by
@@ -161,7 +161,7 @@ theorem pSearchRest_w (uid : Bool) (opts : SearchOpts) (cs : Bool) (c : Crit) (h
 
 
 theorem search_fidelity_aux (cfg : Cfg) (tag : Nat) (uid : Bool) (c : Crit) (o : Option SearchOpts) (os : SearchOpts) (cs : Bool)
-    (hok : CritOK c)
+    (hok : CritOK c) (hd : depth c < maxListDepth)
     (hw : wBody {} cfg (.search uid c o) =
       .ok [[.fixed (uidName uid "SEARCH" ++ (if (rOpts os).map ROpt.wire = [] then [] else sp ++ kw "RETURN" ++ sp ++ [.b 40]))] ++
            (if (rOpts os).map ROpt.wire = [] then [] else [.anyOrder ((rOpts os).map ROpt.wire), .fixed [.b 41]]) ++
@@ -197,7 +197,7 @@ theorem search_fidelity_aux (cfg : Cfg) (tag : Nat) (uid : Bool) (c : Crit) (o :
         simp only [afterOpts, hcs, if_true, hk, List.append_assoc] at h
         rw [span_atom _ _ _ (by decide) (stops_sp _ (by decide) _)] at h
         cases h; decide
-    have hrest := pSearchRest_w uid {} cs c hok
+    have hrest := pSearchRest_w uid {} cs c hok hd
     simp only [one, pSearch, bind, Except.bind, pSP_sp _ (notEol_afterOpts cs c crlf)]
     rw [hnoret _ _ rfl]
     simp only [Bool.false_eq_true, if_false, hrest, hsem, hos]
@@ -220,7 +220,7 @@ theorem search_fidelity_aux (cfg : Cfg) (tag : Nat) (uid : Bool) (c : Crit) (o :
       span_atom _ _ _ (by decide) (stops_sp _ (by decide) _)
     have hl := pList_wList rOptSpec (rOpts os) (fun _ _ => trivial) {} (sp ++ (afterOpts cs c ++ crlf))
     rw [foldl_rOpts] at hl
-    have hrest := pSearchRest_w uid os cs c hok
+    have hrest := pSearchRest_w uid os cs c hok hd
     have hu : upper (str "RETURN") = str "RETURN" := by decide
     simp (decide := true) only [one, pSearch, bind, Except.bind, pSP_sp _ (notEol_atom (str "RETURN") _ (by decide) (by decide)), hsp, hu,
       if_true, pSP_sp _ (notEol_wList _ _), hl, pSP_sp _ (notEol_afterOpts cs c crlf), hrest, hsem]
@@ -228,16 +228,17 @@ theorem search_fidelity_aux (cfg : Cfg) (tag : Nat) (uid : Bool) (c : Crit) (o :
 
 
 /-- SEARCH: the criteria tree (`CritOK`), any return options, either numbering -/
-theorem search_fidelity (cfg : Cfg) (tag : Nat) (uid : Bool) (c : Crit) (o : Option SearchOpts) (hok : CritOK c) :
+theorem search_fidelity (cfg : Cfg) (tag : Nat) (uid : Bool) (c : Crit) (o : Option SearchOpts) (hok : CritOK c)
+    (hd : depth c < maxListDepth) :
     roundTrip {} cfg tag (.search uid c o) = .calls (sem cfg (.search uid c o)) := by
   cases o with
   | none =>
-    apply search_fidelity_aux cfg tag uid c none {} (cfg.needCharset && !critIsAscii c) hok
+    apply search_fidelity_aux cfg tag uid c none {} (cfg.needCharset && !critIsAscii c) hok hd
     · simp only [wBody, wCrit_ok c hok, bind, Except.bind, pure, Except.pure, Bool.false_eq_true, if_false]
       rfl
     · rfl
   | some o' =>
-    apply search_fidelity_aux cfg tag uid c (some o') o' (cfg.needCharset && !critIsAscii c) hok
+    apply search_fidelity_aux cfg tag uid c (some o') o' (cfg.needCharset && !critIsAscii c) hok hd
     · simp only [wBody, wCrit_ok c hok, bind, Except.bind, pure, Except.pure, Bool.false_eq_true, if_false, searchReturnItems_eq]
     · rfl
 
